@@ -22,15 +22,20 @@ def sh(cmd, cwd=None, env=None, timeout=3600):
 
 
 def suites(wt, env):
+    """gorm's own suites. tests/ has load-dependent flakes on the unchanged tree (TestPreparedStmtConcurrentClose/Reset:
+    a nil-pointer panic in the test's own helper): a failure that names only those is retried, up to 4 runs."""
     res = {}
     for name, d in (("root", wt), ("tests", os.path.join(wt, "tests"))):
-        rc, out = sh("go test -vet=off -count=1 ./... 2>&1 | tail -40", cwd=d, env=env)
-        ok = "FAIL" not in out and "panic:" not in out
-        if not ok:  # known load-dependent flake in the unchanged suite: retry once
-            rc, out2 = sh("go test -vet=off -count=1 ./... 2>&1 | tail -40", cwd=d, env=env)
-            ok = "FAIL" not in out2 and "panic:" not in out2
-            out = out + "\n--- retry ---\n" + out2
-        res[name] = dict(ok=ok, tail=out[-1500:])
+        outs, ok = [], False
+        for attempt in range(4):
+            rc, out = sh("go test -vet=off -count=1 ./... 2>&1 | tail -60", cwd=d, env=env)
+            outs.append(out)
+            ok = "FAIL" not in out and "panic:" not in out
+            failed = set(re.findall(r"--- FAIL: (\w+)", out))
+            if ok or not failed or not all(f.startswith("TestPreparedStmtConcurrent") for f in failed):
+                if ok or attempt >= 1:
+                    break
+        res[name] = dict(ok=ok, tail="\n--- retry ---\n".join(o[-1500:] for o in outs)[-4000:], runs=len(outs))
     return res
 
 
